@@ -10,14 +10,14 @@ import Bermuda.Lemmas.Sort
 namespace Bermuda
 open List
 
-/-! ### `dedup`, `dictGet`, `joinCore` -/
+/-! ### `dedupJ`, `dictGet`, `joinCore` -/
 
 theorem dedup_cons {α} [BEq α] (a : α) (l : List α) :
-    dedup (a :: l) = if (dedup l).contains a then dedup l else a :: dedup l := rfl
+    dedupJ (a :: l) = if (dedupJ l).contains a then dedupJ l else a :: dedupJ l := rfl
 
-theorem mem_dedup {α} [BEq α] [LawfulBEq α] {a : α} {l : List α} : a ∈ dedup l ↔ a ∈ l := by
+theorem mem_dedupJ {α} [BEq α] [LawfulBEq α] {a : α} {l : List α} : a ∈ dedupJ l ↔ a ∈ l := by
   induction l generalizing a with
-  | nil => simp [dedup]
+  | nil => simp [dedupJ]
   | cons b l ih =>
     rw [dedup_cons]
     split
@@ -31,9 +31,9 @@ theorem mem_dedup {α} [BEq α] [LawfulBEq α] {a : α} {l : List α} : a ∈ de
         · exact ih.mpr h'
     · simp [ih]
 
-theorem nodup_dedup {α} [BEq α] [LawfulBEq α] (l : List α) : (dedup l).Nodup := by
+theorem nodup_dedupJ {α} [BEq α] [LawfulBEq α] (l : List α) : (dedupJ l).Nodup := by
   induction l with
-  | nil => simp [dedup]
+  | nil => simp [dedupJ]
   | cons b l ih =>
     rw [dedup_cons]
     split
@@ -84,9 +84,9 @@ theorem mem_allCoordinates {a b : List Cell} {k : Coord} :
     k ∈ allCoordinates a b ↔
       k ∈ a.map (joinKey (isIncremental a)) ∨ k ∈ b.map (joinKey (isIncremental a)) := by
   unfold allCoordinates
-  simp only [mem_dedup, List.mem_append]
+  simp only [mem_dedupJ, List.mem_append]
 
-theorem nodup_allCoordinates (a b : List Cell) : (allCoordinates a b).Nodup := nodup_dedup _
+theorem nodup_allCoordinates (a b : List Cell) : (allCoordinates a b).Nodup := nodup_dedupJ _
 
 theorem keep_pairOf (ty : JoinType) {a b : List Cell} {k : Coord} (hk : k ∈ allCoordinates a b) :
     ty.keep (pairOf (isIncremental a) a b k) =
@@ -173,9 +173,9 @@ theorem dictGet_eq_cellAt {inc : Bool} {t : List Cell} (h : (t.map (joinKey inc)
 
 /-! ### dicts -/
 
-theorem Dict.get?_nil {α} (k : String) : Dict.get? ([] : Dict α) k = none := rfl
+theorem Dict.get?_nil_j {α} (k : String) : Dict.get? ([] : Dict α) k = none := rfl
 
-theorem Dict.get?_cons {α} (p : String × α) (d : Dict α) (k : String) :
+theorem Dict.get?_cons_j {α} (p : String × α) (d : Dict α) (k : String) :
     Dict.get? (p :: d) k = if p.1 == k then some p.2 else Dict.get? d k := by
   unfold Dict.get?
   rw [List.find?_cons]
@@ -183,9 +183,9 @@ theorem Dict.get?_cons {α} (p : String × α) (d : Dict α) (k : String) :
 
 theorem Dict.get?_eq_none_iff {α} {d : Dict α} {k : String} : d.get? k = none ↔ k ∉ d.keys := by
   induction d with
-  | nil => simp [Dict.get?_nil, Dict.keys]
+  | nil => simp [Dict.get?_nil_j, Dict.keys]
   | cons p d ih =>
-    rw [Dict.get?_cons]
+    rw [Dict.get?_cons_j]
     simp only [Dict.keys, List.map_cons, List.mem_cons, not_or] at ih ⊢
     by_cases h : p.1 = k
     · simp [h]
@@ -203,9 +203,9 @@ theorem Dict.get?_map_replace {α} (d : Dict α) (k k' : String) (v : α) :
     Dict.get? (d.map (fun p => if p.1 == k then (k, v) else p)) k' =
       if k == k' then (d.get? k).map (fun _ => v) else d.get? k' := by
   induction d with
-  | nil => simp [Dict.get?_nil]
+  | nil => simp [Dict.get?_nil_j]
   | cons p d ih =>
-    rw [List.map_cons, Dict.get?_cons, ih, Dict.get?_cons, Dict.get?_cons]
+    rw [List.map_cons, Dict.get?_cons_j, ih, Dict.get?_cons_j, Dict.get?_cons_j]
     by_cases h1 : p.1 = k <;> by_cases h2 : k = k' <;> by_cases h3 : p.1 = k' <;> simp_all
 
 theorem Dict.get?_append_single {α} (d : Dict α) (k k' : String) (v : α) :
@@ -214,9 +214,9 @@ theorem Dict.get?_append_single {α} (d : Dict α) (k k' : String) (v : α) :
       | some x => some x
       | none => if k == k' then some v else none := by
   induction d with
-  | nil => simp [Dict.get?_nil, Dict.get?_cons]
+  | nil => simp [Dict.get?_nil_j, Dict.get?_cons_j]
   | cons p d ih =>
-    rw [List.cons_append, Dict.get?_cons, ih, Dict.get?_cons]
+    rw [List.cons_append, Dict.get?_cons_j, ih, Dict.get?_cons_j]
     by_cases h3 : p.1 = k' <;> simp_all
 
 theorem Dict.get?_set {α} (d : Dict α) (k k' : String) (v : α) :
@@ -282,11 +282,11 @@ theorem Dict.WF_union {α} {a : Dict α} (h : a.WF) (b : Dict α) : (a.union b).
 theorem Dict.get?_union {α} (a b : Dict α) (hb : b.WF) (k : String) :
     (a.union b).get? k = (b.get? k).or (a.get? k) := by
   induction b generalizing a with
-  | nil => simp [Dict.union, Dict.get?_nil]
+  | nil => simp [Dict.union, Dict.get?_nil_j]
   | cons p b ih =>
     unfold Dict.WF at hb
     simp only [Dict.keys, List.map_cons, List.nodup_cons] at hb
-    rw [Dict.union_cons, ih _ hb.2, Dict.get?_set, Dict.get?_cons]
+    rw [Dict.union_cons, ih _ hb.2, Dict.get?_set, Dict.get?_cons_j]
     by_cases h : p.1 = k
     · subst h
       have : Dict.get? b p.1 = none := Dict.get?_eq_none_iff.mpr hb.1
@@ -438,19 +438,19 @@ theorem Dict.keys_filter_sub {α} (d : Dict α) (p : String → Bool) {k : Strin
   obtain ⟨kv, ⟨hm, hp⟩, rfl⟩ := h
   exact ⟨hp, kv, hm, rfl⟩
 
-theorem Dict.get?_filter {α} (d : Dict α) (p : String → Bool) (k : String) :
+theorem Dict.get?_filter_j {α} (d : Dict α) (p : String → Bool) (k : String) :
     Dict.get? (d.filter (fun kv => p kv.1)) k = if p k then d.get? k else none := by
   induction d with
-  | nil => simp [Dict.get?_nil]
+  | nil => simp [Dict.get?_nil_j]
   | cons q d ih =>
     rw [List.filter_cons]
     by_cases hq : p q.1 = true
-    · rw [if_pos hq, Dict.get?_cons, Dict.get?_cons, ih]
+    · rw [if_pos hq, Dict.get?_cons_j, Dict.get?_cons_j, ih]
       by_cases hk : q.1 = k
       · subst hk; simp [hq]
       · have : (q.1 == k) = false := by simpa using hk
         simp [this]
-    · rw [if_neg hq, ih, Dict.get?_cons]
+    · rw [if_neg hq, ih, Dict.get?_cons_j]
       by_cases hk : q.1 = k
       · subst hk; simp [hq]
       · have : (q.1 == k) = false := by simpa using hk
@@ -506,7 +506,7 @@ theorem mapM_error {α β ε} {f : α → Except ε β} {l : List α} {e : ε}
 
 /-! ### idempotence facts used by `merge_self` -/
 
-theorem dedup_of_nodup {α} [BEq α] [LawfulBEq α] {l : List α} (h : l.Nodup) : dedup l = l := by
+theorem dedup_of_nodup {α} [BEq α] [LawfulBEq α] {l : List α} (h : l.Nodup) : dedupJ l = l := by
   induction l with
   | nil => rfl
   | cons a l ih =>
@@ -517,12 +517,12 @@ theorem dedup_of_nodup {α} [BEq α] [LawfulBEq α] {l : List α} (h : l.Nodup) 
     rw [this]; rfl
 
 theorem dedup_append_of_subset {α} [BEq α] [LawfulBEq α] {L M : List α} (h : ∀ x ∈ L, x ∈ M) :
-    dedup (L ++ M) = dedup M := by
+    dedupJ (L ++ M) = dedupJ M := by
   induction L with
   | nil => rfl
   | cons a L ih =>
     rw [List.cons_append, dedup_cons, ih (fun x hx => h x (by simp [hx]))]
-    have : (dedup M).contains a = true := List.contains_iff_mem.mpr (mem_dedup.mpr (h a (by simp)))
+    have : (dedupJ M).contains a = true := List.contains_iff_mem.mpr (mem_dedupJ.mpr (h a (by simp)))
     rw [this]; rfl
 
 theorem Dict.eq_of_mem_of_key_eq {α} {d : Dict α} (h : d.WF) {p q : String × α} (hp : p ∈ d)
